@@ -56,8 +56,8 @@ PANIC_ALLOW = {
     "text::extraction::assign_row_ids:assert_failed#1": "debug_assert_eq on the length of a vector that receives exactly one push per input fragment",
     "text::extraction::cids_for_codes:panic#1": "unreachable!() for CidEncoding::Utf16Be after the function returned None for that encoding at its top",
     "text::extraction::cids_for_codes:panic#2": "same early return excludes Utf16Be",
-    "text::flat_reading_order::cut_recursive:unwrap#1": "column.unwrap() on the branch where choose_column was derived from column being Some",
-    "text::flat_reading_order::cut_recursive:unwrap#2": "section.unwrap() on the branch where choose_column is false, which requires section to be Some",
+    "text::flat_reading_order::cut_regions:unwrap#1": "column.unwrap() on the branch where choose_column was derived from column being Some",
+    "text::flat_reading_order::cut_regions:unwrap#2": "section.unwrap() on the branch where choose_column is false, which requires section to be Some",
 }
 
 
